@@ -4,6 +4,8 @@
 // ModuleInit, ResolveAndCompile into GPy.C09.EAct lists.  Any statement shape it does
 // not understand, any lifecycle field touched elsewhere, or a shared-state access
 // without its H1 yield point is a hard error (exit 3: tie lost).
+// Understood wait shapes: the loop `for ctx.running > 0 { …Wait()… }` (brPos … jmpBack) and the
+// single conditional wait `if ctx.running > 0 { …Wait()… }` (brPos without jmpBack).
 //
 // usage: lifecycle -repo <dir> -out <Generated.lean> [-facts <json>] [-allow-missing-yields]
 package main
@@ -120,6 +122,16 @@ func (t *tr) stmts(list []ast.Stmt, tail string) []string {
 	return out
 }
 
+// stmtsOptTail is stmts for a block that MAY end with the yield point `tail` (reported in the result)
+func (t *tr) stmtsOptTail(list []ast.Stmt, tail string) ([]string, bool) {
+	if len(list) > 0 {
+		if y, ok := isYield(list[len(list)-1]); ok && y == t.fn+"."+tail {
+			return t.stmts(list, tail), true
+		}
+	}
+	return t.stmts(list, ""), false
+}
+
 func (t *tr) stmt(s ast.Stmt) []string {
 	text := src(s)
 	simple := map[string]string{
@@ -143,11 +155,26 @@ func (t *tr) stmt(s ast.Stmt) []string {
 			act = ".brClosed"
 		case "ctx.running == 0":
 			act = ".brZero"
+		case "ctx.running > 0":
+			// a single conditional wait, `if ctx.running > 0 { …Wait()… }`: the same test as the loop
+			// head but WITHOUT the backward jump (no re-check after the wake-up).  A body that still
+			// ends with the loop's re-test announcement verifYield("<fn>.load-running") keeps that
+			// yield point as `.brPos 0`: running is announced as loaded, nothing depends on the value.
+			act = ".brPos"
 		default:
 			die(s.Pos(), "condition not understood: %s", src(x.Cond))
 		}
 		t.consume(s.Pos(), act)
-		inner := t.stmts(x.Body.List, "")
+		var inner []string
+		if act == ".brPos" {
+			var tail bool
+			inner, tail = t.stmtsOptTail(x.Body.List, "load-running")
+			if tail {
+				inner = append(inner, ".brPos 0")
+			}
+		} else {
+			inner = t.stmts(x.Body.List, "")
+		}
 		return append([]string{fmt.Sprintf("%s %d", act, len(inner))}, inner...)
 	case *ast.ForStmt:
 		if x.Init != nil || x.Post != nil || x.Cond == nil || src(x.Cond) != "ctx.running > 0" {
